@@ -456,26 +456,33 @@ example : Reach 2 { Hp.init with tasks := [Task.colWant] } := Reach.step Reach.i
 
 /-! ### the orderings the source passes NOW (regenerated table) -/
 
-/-- the orderings the proofs and the replay machine need, keyed like `Gen.orderingSites`
-    (file, type, fn, occurrence of `Ordering::` within that fn): observers claim with at least
-    Acquire and publish with at least Release (`observe`, `LocalHistogramCore::flush`); the collector
-    flips with at least AcqRel, spins with at least Acquire and reads-and-resets the cold cells with at
-    least AcqRel (`proto`). (The orderings of the f64 add loop in `src/atomic64.rs` are not part of the
-    hand-off; the replay machine compares them with every real trace.) -/
-def requiredOrderings : List (String × String × String × Nat × String) :=
-  [("histogram.rs", "HistogramCore", "observe", 0, "Acquire"), ("histogram.rs", "HistogramCore", "observe", 1, "Release"),
-   ("histogram.rs", "HistogramCore", "proto", 0, "AcqRel"), ("histogram.rs", "HistogramCore", "proto", 1, "Acquire"),
-   ("histogram.rs", "HistogramCore", "proto", 3, "AcqRel"), ("histogram.rs", "HistogramCore", "proto", 4, "AcqRel"),
-   ("histogram.rs", "LocalHistogramCore", "flush", 0, "Acquire"), ("histogram.rs", "LocalHistogramCore", "flush", 1, "Release")]
+/-- the orderings the hand-off and the replay machine need, stated over WHAT a call site is - the
+    last field of its receiver, the method, the position among the call's ordering arguments - not
+    over where it is (functions may be split, merged or renamed): every increment of
+    `shard_and_count` (an observer's or a batch's claim) is at least Acquire, every `flip` at least
+    AcqRel, every explicitly ordered increment of a shard's `count` (the publish) at least Release,
+    every compare-exchange on a `count` (the collector's spin) at least Acquire on success, every swap
+    of a `sum` or of `buckets` (read-and-reset of the cold cells) at least AcqRel -/
+def orderingRules : List (String × List String × Nat × String) :=
+  [("shard_and_count", ["inc", "inc_by"], 0, "Acquire"),
+   ("shard_and_count", ["flip"], 0, "AcqRel"),
+   ("count", ["inc_by_with_ordering"], 0, "Release"),
+   ("count", ["compare_exchange_weak", "compare_exchange"], 0, "Acquire"),
+   ("sum", ["swap"], 0, "AcqRel"),
+   ("buckets", ["swap"], 0, "AcqRel")]
 
-/-- **source_orderings_suffice** — over the table REGENERATED from `src/histogram.rs` and
-    `src/atomic64.rs` on every run (`translate/orderings.py`): at every call site the hand-off needs,
-    the ordering the source passes is at least the required one (`handoff_hb` needs the publish to be a
-    release and the spin an acquire; the replay machine demands the same orderings of every event). A
-    weakened ordering in the source changes the table and this closed fact no longer checks. -/
+/-- the sites of `src/histogram.rs` a rule speaks about -/
+def ruleSites (r : String × List String × Nat × String) : List Gen.OrdSite :=
+  Gen.orderingSites.filter fun s => s.file == "histogram.rs" && s.recv == r.1 && r.2.1.contains s.meth && s.arg == r.2.2.1
+
+/-- **source_orderings_suffice** — over the table REGENERATED from `src/histogram.rs` on every run
+    (`translate/orderings.py`): for every rule there IS such a call site in the source, and EVERY
+    such site passes an ordering at least as strong as the rule demands (`handoff_hb` needs the
+    publish to be a release and the spin an acquire; the replay machine demands the same of every
+    event of every real trace). A weakened ordering changes the table and this closed fact no
+    longer checks; moving a call into a helper function does not change it. -/
 theorem source_orderings_suffice :
-    requiredOrderings.all (fun r => Gen.orderingSites.any fun s =>
-      s.file == r.1 && s.ty == r.2.1 && s.fn == r.2.2.1 && s.idx == r.2.2.2.1 && Conc.ordGe s.ord r.2.2.2.2) = true := by
+    orderingRules.all (fun r => !(ruleSites r).isEmpty && (ruleSites r).all fun s => Conc.ordGe s.ord r.2.2.2) = true := by
   decide +kernel
 
 end Prom.C02
